@@ -325,3 +325,82 @@ Qed.
 (** equal marker with a different value is flagged as a conflict, and only that *)
 Lemma lww_conflict_spec s v m : lww_conflict s v m = true ↔ lww_marker s = m ∧ lww_val s ≠ v.
 Proof. unfold lww_conflict. split; [intros H|intros [? ?]]; lia. Qed.
+
+(** * merge laws (C02) *)
+Lemma gc_merge_laws (H : list (oprec dot)) s1 K1 s2 K2 s3 K3 :
+  reach (∅ : vclock) vapply vmerge adm_any True H s1 K1 → reach ∅ vapply vmerge adm_any True H s2 K2 →
+  reach ∅ vapply vmerge adm_any True H s3 K3 →
+  vmerge s1 s2 = vmerge s2 s1 ∧ vmerge (vmerge s1 s2) s3 = vmerge s1 (vmerge s2 s3) ∧ vmerge s1 s1 = s1.
+Proof.
+  exact (sl_merge_laws vwf vmerge vfrom_dot ∅ vwf_empty vfrom_dot_wf vmerge_wf vmerge_comm vmerge_assoc
+           (λ x _, vmerge_idem x) vapply vmerge vapply_as_merge (λ _ _ _ _, eq_refl) H s1 K1 s2 K2 s3 K3).
+Qed.
+Lemma pn_sl_args :
+  pn_wf pn_new ∧ (∀ o, pn_wf (pn_embed o)) ∧ (∀ x y, pn_wf x → pn_wf y → pn_wf (pn_merge x y)) ∧
+  (∀ x y, pn_wf x → pn_wf y → pn_merge x y = pn_merge y x) ∧
+  (∀ x y z, pn_wf x → pn_wf y → pn_wf z → pn_merge (pn_merge x y) z = pn_merge x (pn_merge y z)) ∧
+  (∀ x, pn_wf x → pn_merge x x = x) ∧
+  (∀ s o, pn_wf s → pn_apply s o = pn_merge s (pn_embed o)).
+Proof.
+  split_and!.
+  - split; apply vwf_empty.
+  - intros o. unfold pn_embed. destruct (pn_dir o); split; simpl; (apply vwf_empty || apply vfrom_dot_wf).
+  - intros x y [? ?] [? ?]. split; simpl; by apply vmerge_wf.
+  - intros x y [? ?] [? ?]. apply pn_ext; simpl; by apply vmerge_comm.
+  - intros x y z [? ?] [? ?] [? ?]. apply pn_ext; simpl; by apply vmerge_assoc.
+  - intros x _. apply pn_ext; simpl; apply vmerge_idem.
+  - intros s' o [? ?]. unfold pn_apply, pn_embed, pn_merge, gc_apply, gc_merge.
+    destruct (pn_dir o); apply pn_ext; simpl; rewrite ?vmerge_empty_r; try done; by apply vapply_as_merge.
+Qed.
+Lemma pn_merge_laws (H : list (oprec pnop)) s1 K1 s2 K2 s3 K3 :
+  reach pn_new pn_apply pn_merge adm_any True H s1 K1 → reach pn_new pn_apply pn_merge adm_any True H s2 K2 →
+  reach pn_new pn_apply pn_merge adm_any True H s3 K3 →
+  pn_merge s1 s2 = pn_merge s2 s1 ∧ pn_merge (pn_merge s1 s2) s3 = pn_merge s1 (pn_merge s2 s3) ∧ pn_merge s1 s1 = s1.
+Proof.
+  destruct pn_sl_args as (A1 & A2 & A3 & A4 & A5 & A6 & A7).
+  exact (sl_merge_laws pn_wf pn_merge pn_embed pn_new A1 A2 A3 A4 A5 A6 pn_apply pn_merge A7 (λ _ _ _ _, eq_refl)
+           H s1 K1 s2 K2 s3 K3).
+Qed.
+Lemma simple_merge_laws (s1 s2 s3 : gset N) (x y z : N) :
+  (gs_merge s1 s2 = gs_merge s2 s1 ∧ gs_merge (gs_merge s1 s2) s3 = gs_merge s1 (gs_merge s2 s3) ∧ gs_merge s1 s1 = s1) ∧
+  (max_update x y = max_update y x ∧ max_update (max_update x y) z = max_update x (max_update y z) ∧ max_update x x = x) ∧
+  (min_update x y = min_update y x ∧ min_update (min_update x y) z = min_update x (min_update y z) ∧ min_update x x = x).
+Proof.
+  unfold gs_merge. rewrite !max_update_max, !min_update_min. split_and!; try set_solver; lia.
+Qed.
+Lemma lww_merge_laws (S : lww → Prop) :
+  (∀ x y, S x → S y → lww_marker x = lww_marker y → x = y) →
+  ∀ x y z, S x → S y → S z →
+    lww_merge x y = lww_merge y x ∧ lww_merge (lww_merge x y) z = lww_merge x (lww_merge y z) ∧ lww_merge x x = x.
+Proof.
+  intros Hi x y z Hx Hy Hz. split_and!.
+  - by apply (lww_merge_comm S Hi).
+  - unfold lww_merge, lww_update. destruct x as [xv xm], y as [yv ym], z as [zv zm]. cbn.
+    destruct (xm <? ym) eqn:E1, (ym <? zm) eqn:E2; cbn; rewrite ?E1, ?E2; cbn;
+      destruct (xm <? zm) eqn:E3; cbn; try done; lia.
+  - unfold lww_merge, lww_update. destruct (_ <? _) eqn:E; [lia|done].
+Qed.
+
+(** * hybrid replication and idempotence (C03, C09) for the counters *)
+Lemma gc_hybrid_absorb (H : list (oprec dot)) s K s' K' i r :
+  reach (∅ : vclock) vapply vmerge adm_any True H s K → reach ∅ vapply vmerge adm_any True H s' K' →
+  vmerge s s' = gcspec H (K ∪ K') ∧
+  (H !! i = Some r → i ∈ K → vapply s (op_val r) = s) ∧ (K' ⊆ K → vmerge s s' = s).
+Proof.
+  intros H1 H2. split.
+  - rewrite (sl_merge_is_union vwf vmerge vfrom_dot ∅ vwf_empty vfrom_dot_wf vmerge_wf vmerge_comm vmerge_assoc
+               (λ x _, vmerge_idem x) vapply vmerge vapply_as_merge (λ _ _ _ _, eq_refl) H s K s' K' H1 H2).
+    unfold sl_spec, gcspec. apply gc_joins_dots_clock.
+  - exact (sl_absorb vwf vmerge vfrom_dot ∅ vwf_empty vfrom_dot_wf vmerge_wf vmerge_comm vmerge_assoc
+             (λ x _, vmerge_idem x) vapply vmerge vapply_as_merge (λ _ _ _ _, eq_refl) H s K i r s' K' H1 H2).
+Qed.
+Lemma pn_hybrid_absorb (H : list (oprec pnop)) s K s' K' i r :
+  reach pn_new pn_apply pn_merge adm_any True H s K → reach pn_new pn_apply pn_merge adm_any True H s' K' →
+  pn_merge s s' = pnspec H (K ∪ K') ∧
+  (H !! i = Some r → i ∈ K → pn_apply s (op_val r) = s) ∧ (K' ⊆ K → pn_merge s s' = s).
+Proof.
+  intros H1 H2. destruct pn_sl_args as (A1 & A2 & A3 & A4 & A5 & A6 & A7). split.
+  - apply pn_reach_pnspec. by apply reach_merge.
+  - exact (sl_absorb pn_wf pn_merge pn_embed pn_new A1 A2 A3 A4 A5 A6 pn_apply pn_merge A7 (λ _ _ _ _, eq_refl)
+             H s K i r s' K' H1 H2).
+Qed.
